@@ -23,7 +23,8 @@ CONSTANTS N,        \* length of a plain vector (a multi-component object has 2*
 Names == {"a", "b", "c"}
 
 VARIABLES env,    \* name -> object id (0 = unbound)
-          objs,   \* object id -> [ty, buf, off, len]      ty in {"mesh", "mc"}
+          objs,   \* object id -> [ty, buf, idx]   ty in {"mesh", "mc"}; idx = the buffer positions the object shows, in order
+                  \* (a contiguous window for ordinary objects, every second position for strided views)
           bufs,   \* buffer id -> sequence of integers
           nobj, nbuf,
           prog,   \* statements executed so far
@@ -32,14 +33,13 @@ VARIABLES env,    \* name -> object id (0 = unbound)
 
 vars == <<env, objs, bufs, nobj, nbuf, prog, obs, lastabs>>
 
-Window(o) == [i \in 1 .. objs[o].len |-> bufs[objs[o].buf][objs[o].off + i]]
+Window(o) == [i \in 1 .. Len(objs[o].idx) |-> bufs[objs[o].buf][objs[o].idx[i]]]
+Positions(ob, o) == {ob[o].idx[i] : i \in 1 .. Len(ob[o].idx)}
 Bound(x) == env[x] # 0
 Ty(x) == objs[env[x]].ty
 Val(x) == Window(env[x])
-LenOf(x) == objs[env[x]].len
-Overlap(o1, o2) == /\ objs[o1].buf = objs[o2].buf
-                   /\ objs[o1].off < objs[o2].off + objs[o2].len
-                   /\ objs[o2].off < objs[o1].off + objs[o1].len
+LenOf(x) == Len(objs[env[x]].idx)
+Overlap(o1, o2) == objs[o1].buf = objs[o2].buf /\ Positions(objs, o1) \cap Positions(objs, o2) # {}
 
 Abs(v) == IF v < 0 THEN -v ELSE v
 MaxAbs(s) == CHOOSE m \in {Abs(s[i]) : i \in 1 .. Len(s)} : \A i \in 1 .. Len(s) : Abs(s[i]) <= m
@@ -49,15 +49,14 @@ Observe(e, ob, bf) ==
     [x \in Names |->
         IF e[x] = 0 THEN [bound |-> FALSE, ty |-> "-", val |-> <<>>, shares |-> {}]
         ELSE [bound |-> TRUE, ty |-> ob[e[x]].ty,
-              val |-> [i \in 1 .. ob[e[x]].len |-> bf[ob[e[x]].buf][ob[e[x]].off + i]],
+              val |-> [i \in 1 .. Len(ob[e[x]].idx) |-> bf[ob[e[x]].buf][ob[e[x]].idx[i]]],
               shares |-> {y \in Names : e[y] # 0 /\ ob[e[x]].buf = ob[e[y]].buf
-                                        /\ ob[e[x]].off < ob[e[y]].off + ob[e[y]].len
-                                        /\ ob[e[y]].off < ob[e[x]].off + ob[e[x]].len}]]
+                                        /\ Positions(ob, e[x]) \cap Positions(ob, e[y]) # {}}]]
 
 \* allocate a fresh object with a fresh buffer holding `vals`, bind it to x
 Fresh(x, ty, vals, stmt, absval) ==
     /\ nobj' = nobj + 1 /\ nbuf' = nbuf + 1
-    /\ objs' = objs @@ (nobj + 1 :> [ty |-> ty, buf |-> nbuf + 1, off |-> 0, len |-> Len(vals)])
+    /\ objs' = objs @@ (nobj + 1 :> [ty |-> ty, buf |-> nbuf + 1, idx |-> [i \in 1 .. Len(vals) |-> i]])
     /\ bufs' = bufs @@ (nbuf + 1 :> vals)
     /\ env' = [env EXCEPT ![x] = nobj + 1]
     /\ prog' = Append(prog, stmt)
@@ -66,7 +65,7 @@ Fresh(x, ty, vals, stmt, absval) ==
 
 Init ==
     /\ nobj = 2 /\ nbuf = 2
-    /\ objs = (1 :> [ty |-> "mesh", buf |-> 1, off |-> 0, len |-> N]) @@ (2 :> [ty |-> "mc", buf |-> 2, off |-> 0, len |-> 2 * N])
+    /\ objs = (1 :> [ty |-> "mesh", buf |-> 1, idx |-> [i \in 1 .. N |-> i]]) @@ (2 :> [ty |-> "mc", buf |-> 2, idx |-> [i \in 1 .. 2 * N |-> i]])
     /\ bufs = (1 :> [i \in 1 .. N |-> i]) @@ (2 :> [i \in 1 .. 2 * N |-> 10 * i])
     /\ env = [x \in Names |-> IF x = "a" THEN 1 ELSE IF x = "b" THEN 2 ELSE 0]
     /\ prog = <<>> /\ lastabs = 0
@@ -90,7 +89,7 @@ Bin(x, y, z, op) == /\ "bin" \in OPS /\ More /\ Bound(y) /\ Bound(z) /\ Ty(y) = 
 Scale(x, y, side) == "scale" \in OPS /\ More /\ Bound(y)
                      /\ Fresh(x, Ty(y), [i \in 1 .. LenOf(y) |-> 2 * Val(y)[i]], <<"scale", x, y, side>>, lastabs)
 \* x += y : augmented assignment REBINDS x to a fresh object; everything that referred to the old object is untouched
-Aug(x, y) == /\ "aug" \in OPS /\ More /\ Bound(x) /\ Bound(y) /\ LenOf(x) = LenOf(y)
+Aug(x, y) == /\ "aug" \in OPS /\ More /\ Bound(x) /\ Bound(y) /\ Ty(x) = Ty(y) /\ LenOf(x) = LenOf(y)
              /\ Fresh(x, Ty(x), [i \in 1 .. LenOf(x) |-> Val(x)[i] + Val(y)[i]], <<"aug", x, y>>, lastabs)
 \* x *= 2 (scalar operand): REBINDS x to a fresh object as well -- aliases and component views of the old object are untouched
 AugScalar(x) == /\ "augscalar" \in OPS /\ More /\ Bound(x)
@@ -102,26 +101,42 @@ Ufunc(x, y) == "ufunc" \in OPS /\ More /\ Bound(y)
 OutArg(x, y, z) == /\ "out" \in OPS /\ More /\ Bound(y) /\ Bound(z) /\ Ty(y) = Ty(z) /\ LenOf(y) = LenOf(z)
                    /\ Fresh(x, Ty(y), [i \in 1 .. LenOf(y) |-> Val(y)[i] + Val(z)[i]], <<"out", x, y, z>>, lastabs)
 \* x[:] = y : explicit item assignment writes x's window IN PLACE (visible through aliases and views)
-SetAll(x, y) == /\ "setall" \in OPS /\ More /\ Bound(x) /\ Bound(y) /\ LenOf(x) = LenOf(y)
+SetAll(x, y) == /\ "setall" \in OPS /\ More /\ Bound(x) /\ Bound(y) /\ Ty(x) = Ty(y) /\ LenOf(x) = LenOf(y)
                 /\ LET o == objs[env[x]] v == Val(y) IN
-                   bufs' = [bufs EXCEPT ![o.buf] = [i \in 1 .. Len(@) |-> IF i > o.off /\ i <= o.off + o.len THEN v[i - o.off] ELSE @[i]]]
+                   bufs' = [bufs EXCEPT ![o.buf] = [i \in 1 .. Len(@) |->
+                                IF \E k \in 1 .. Len(o.idx) : o.idx[k] = i THEN v[CHOOSE k \in 1 .. Len(o.idx) : o.idx[k] = i] ELSE @[i]]]
                 /\ prog' = Append(prog, <<"setall", x, y>>)
                 /\ obs' = Append(obs, Observe(env, objs, bufs'))
                 /\ UNCHANGED <<env, objs, nobj, nbuf, lastabs>>
 \* x[0] = 7
 SetItem(x) == /\ "setitem" \in OPS /\ More /\ Bound(x)
-              /\ LET o == objs[env[x]] IN bufs' = [bufs EXCEPT ![o.buf][o.off + 1] = 7]
+              /\ LET o == objs[env[x]] IN bufs' = [bufs EXCEPT ![o.buf][o.idx[1]] = 7]
               /\ prog' = Append(prog, <<"setitem", x>>)
               /\ obs' = Append(obs, Observe(env, objs, bufs'))
               /\ UNCHANGED <<env, objs, nobj, nbuf, lastabs>>
 \* x = y.<component k> : a mesh VIEW of the parent's buffer
 Comp(x, y, k) == /\ "comp" \in OPS /\ More /\ Bound(y) /\ Ty(y) = "mc" /\ x # y
                  /\ nobj' = nobj + 1
-                 /\ objs' = objs @@ (nobj + 1 :> [ty |-> "mesh", buf |-> objs[env[y]].buf, off |-> objs[env[y]].off + k * N, len |-> N])
+                 /\ LET h == Len(objs[env[y]].idx) \div 2 IN
+                    objs' = objs @@ (nobj + 1 :> [ty |-> "mesh", buf |-> objs[env[y]].buf, idx |-> SubSeq(objs[env[y]].idx, k * h + 1, (k + 1) * h)])
                  /\ env' = [env EXCEPT ![x] = nobj + 1]
                  /\ prog' = Append(prog, <<"comp", x, y, k>>)
                  /\ obs' = Append(obs, Observe(env', objs', bufs))
                  /\ UNCHANGED <<bufs, nbuf, lastabs>>
+\* x = y[::2] (mesh) / y[:, ::2] (multi-component): a NON-CONTIGUOUS view of every second entry (of each component); it has the
+\* type of y, shares y's buffer, and its components are views again
+EverySecond(s) == [i \in 1 .. (Len(s) + 1) \div 2 |-> s[2 * i - 1]]
+Stride(x, y) == /\ "stride" \in OPS /\ More /\ Bound(y) /\ x # y
+                /\ LET o == objs[env[y]]
+                       h == Len(o.idx) \div 2
+                       ni == IF o.ty = "mc" THEN EverySecond(SubSeq(o.idx, 1, h)) \o EverySecond(SubSeq(o.idx, h + 1, 2 * h)) ELSE EverySecond(o.idx)
+                   IN /\ (IF o.ty = "mc" THEN h >= 2 ELSE Len(o.idx) >= 2)
+                      /\ objs' = objs @@ (nobj + 1 :> [ty |-> o.ty, buf |-> o.buf, idx |-> ni])
+                /\ nobj' = nobj + 1
+                /\ env' = [env EXCEPT ![x] = nobj + 1]
+                /\ prog' = Append(prog, <<"stride", x, y>>)
+                /\ obs' = Append(obs, Observe(env', objs', bufs))
+                /\ UNCHANGED <<bufs, nbuf, lastabs>>
 \* abs(x)
 AbsOf(x) == /\ "abs" \in OPS /\ More /\ Bound(x)
             /\ lastabs' = MaxAbs(Val(x))
@@ -132,7 +147,7 @@ AbsOf(x) == /\ "abs" \in OPS /\ More /\ Bound(x)
 Next ==
     \E x, y, z \in Names :
         \/ Copy(x, y) \/ Alias(x, y) \/ Bin(x, y, z, "add") \/ Bin(x, y, z, "sub") \/ Scale(x, y, "l") \/ Scale(x, y, "r")
-        \/ Aug(x, y) \/ AugScalar(x) \/ Ufunc(x, y) \/ OutArg(x, y, z) \/ SetAll(x, y) \/ SetItem(x) \/ Comp(x, y, 0) \/ Comp(x, y, 1) \/ AbsOf(x)
+        \/ Aug(x, y) \/ AugScalar(x) \/ Ufunc(x, y) \/ OutArg(x, y, z) \/ SetAll(x, y) \/ SetItem(x) \/ Comp(x, y, 0) \/ Comp(x, y, 1) \/ Stride(x, y) \/ AbsOf(x)
 
 Spec == Init /\ [][Next]_vars
 
@@ -146,7 +161,7 @@ NoSpookyAction ==
     [][\A x \in Names : (Len(prog') > Len(prog) /\ Bound(x) /\ env'[x] = env[x]
                           /\ prog'[Len(prog')][1] \in {"setall", "setitem"}
                           /\ ~ Overlap(env[x], env[prog'[Len(prog')][2]]))
-                         => Window(env[x]) = [i \in 1 .. LenOf(x) |-> bufs'[objs[env[x]].buf][objs[env[x]].off + i]]]_vars
+                         => Window(env[x]) = [i \in 1 .. LenOf(x) |-> bufs'[objs[env[x]].buf][objs[env[x]].idx[i]]]]_vars
 \* a copy never shares memory with its source
 CopyIndependent ==
     [][(Len(prog') > Len(prog) /\ prog'[Len(prog')][1] = "copy") =>
@@ -154,7 +169,7 @@ CopyIndependent ==
             x = y \/ ~ (objs'[env'[x]].buf = objs'[env'[y]].buf)]_vars
 \* component views share the parent's buffer
 ViewShares == \A x, y \in Names : (Bound(x) /\ Bound(y) /\ Overlap(env[x], env[y])) => objs[env[x]].buf = objs[env[y]].buf
-TypeOK == \A x \in Names : Bound(x) => Ty(x) \in {"mesh", "mc"} /\ LenOf(x) \in {N, 2 * N}
+TypeOK == \A x \in Names : Bound(x) => Ty(x) \in {"mesh", "mc"} /\ LenOf(x) \in 1 .. 2 * N
 
 Export == (Len(prog) = MAXLEN) => PrintT(ToJson([vs |-> TRUE, prog |-> prog, obs |-> obs]))
 =============================================================================
